@@ -636,4 +636,51 @@ Section SweeperTheorems.
     rewrite Hnode. ring.
   Qed.
 
+  (* ================================================================ IMEX fixed points (C01) *)
+  Definition strictly_lower_triangular (A : nat -> nat -> K) : Prop := forall m j, m <= j -> A m j = kO.
+  Definition collocation2 (u : nat -> V) (f : nat -> nat -> V) (tau : nat -> option V) : Prop :=
+    forall m, 1 <= m <= M -> forall x,
+      u m x = u 0 x +! dt *! sumf (fun j => Q m j *! (f j 0 x +! f j 1 x)) 1 M +! tauval tau m x.
+
+  Lemma sumf_stri (A : nat -> nat -> K) (g : nat -> K) m :
+    strictly_lower_triangular A -> 1 <= m <= M ->
+    sumf (fun j => A m j *! g j) 1 M = sumf (fun j => A m j *! g j) 1 (m - 1).
+  Proof.
+    intros Ht Hm. replace M with ((m - 1) + (M - (m - 1))) at 1 by lia.
+    rewrite (sumf_split kO kI kadd kmul ksub kopp Rth).
+    rewrite (sumf_ext kO kadd (fun j => A m j *! g j) (fun _ => kO) (1 + (m - 1)) (M - (m - 1))).
+    - rewrite (sumf_zero kO kI kadd kmul ksub kopp Rth). ring.
+    - intros j Hj. rewrite Ht by lia. ring.
+  Qed.
+
+  (* any fixed point of the IMEX sweep (any lower-triangular QI, any strictly lower-triangular QE) solves
+     the collocation problem with the FULL right-hand side f_impl + f_expl *)
+  Theorem imex_fixed_point_is_collocation QI QE u f tau :
+    solver_contract 0 -> feval_ext -> lower_triangular QI -> strictly_lower_triangular QE -> consistent u f ->
+    let r := imex_update kO kadd kmul ksub M dt t0 nodes Q solve feval QI QE u f tau in
+    (forall m, 1 <= m <= M -> forall x, fst r m x = u m x) ->
+    collocation2 u f tau.
+  Proof.
+    intros Hc Hext Htri Hstri Hcons r Hfix m Hm x.
+    destruct (imex_sweep_matrix_form QI QE u f tau Hc) as [_ Hn]. fold r in Hn.
+    destruct (Hn m Hm) as [_ H]. specialize (H x).
+    assert (Hf : forall j p, 1 <= j <= M -> snd r j p x = f j p x).
+    { intros j p Hj. destruct (Hn j Hj) as [E _]. rewrite E, (Hcons j Hj). apply Hext. apply Hfix. exact Hj. }
+    rewrite (sumf_ext kO kadd (fun j => QI m j *! snd r j 0 x) (fun j => QI m j *! f j 0 x) 1 m) in H
+      by (intros j Hj; rewrite Hf by lia; reflexivity).
+    rewrite (sumf_ext kO kadd (fun j => QE m j *! snd r j 1 x) (fun j => QE m j *! f j 1 x) 1 (m - 1)) in H
+      by (intros j Hj; rewrite Hf by lia; reflexivity).
+    rewrite <- (sumf_tri QI (fun j => f j 0 x) m Htri Hm) in H.
+    rewrite <- (sumf_stri QE (fun j => f j 1 x) m Hstri Hm) in H.
+    rewrite !L5 in H. rewrite Hfix in H by exact Hm.
+    rewrite (sumf_ext kO kadd (fun j => Q m j *! (f j 0 x +! f j 1 x)) (fun j => Q m j *! f j 0 x +! Q m j *! f j 1 x) 1 M)
+      by (intros; ring).
+    rewrite (sumf_add kO kI kadd kmul ksub kopp Rth).
+    set (B := sumf (fun j => Q m j *! f j 0 x) 1 M) in *.
+    set (B' := sumf (fun j => Q m j *! f j 1 x) 1 M) in *.
+    set (C := sumf (fun j => QI m j *! f j 0 x) 1 M) in *.
+    set (C' := sumf (fun j => QE m j *! f j 1 x) 1 M) in *.
+    transitivity ((u m x -! dt *! C -! dt *! C') +! dt *! C +! dt *! C'); [ring|]. rewrite H. ring.
+  Qed.
+
 End SweeperTheorems.
